@@ -538,7 +538,12 @@ var helpers = map[string]*helperSpec{
 // covered by wire.events, where no upper-casing is involved).
 func noQuit(raw string) string {
 	if rawOutsideModel(raw) {
-		return "NOQUIT " + raw
+		raw = "NOQUIT " + raw
+	}
+	if ev := girc.ParseEvent(raw); ev != nil { // see tagCutExcess
+		if k := tagCutExcess(ev); k > 0 {
+			raw += " " + strings.Repeat("p", k+1)
+		}
 	}
 	return raw
 }
@@ -566,7 +571,7 @@ func genRawLine(r *rand.Rand) string {
 	case 1:
 		return Pick(r, "PRIVMSG", "NOTICE", "privmsg") + " " + targetArg(r) + " :" + textArg(r)
 	case 2:
-		return "@" + Pick(r, "a=b", "k", "a=b;c=d\\s", "", "a b") + " :" + Pick(r, "n!u@h", "srv", "") + " " + Pick(r, "PRIVMSG", "MODE", "pr\rivmsg") + " " + hostileStr(r)
+		return "@" + Pick(r, "a=b", "k", "a=b;c=d\\s", "", "a b", "a=\xff\xff\xff", "k=x\ry;j=\xc3", "+draft/reply=\xff\xfe\xfd\xfc\xfb\xfa\xf9\xf8") + " :" + Pick(r, "n!u@h", "srv", "") + " " + Pick(r, "PRIVMSG", "MODE", "pr\rivmsg") + " " + hostileStr(r)
 	default:
 		return Pick(r, "JOIN", "MODE", "PRIVMSG", "PING", "who", "Q", "001") + " " + hostileStr(r) + Pick(r, "", " :"+hostileStr(r))
 	}
@@ -871,6 +876,9 @@ func fixedHelperCases() []Case {
 		mkHelperCase("0", "sendraw", []string{"PRIVMSG #c :a\rb\nc", "priv\rmsg #c x"}),
 		mkHelperCase("1", "sendraw", []string{"@a=b;c :n!u@h PRIVMSG #c :" + strings.Repeat("tagged ", 80)}),
 		mkHelperCase("0", "sendraw", []string{"@a=b;c :n!u@h PRIVMSG #c :" + strings.Repeat("tagged ", 80)}),
+		mkHelperCase("0", "sendraw", []string{"@+draft/reply=\xff\xfe\xfd\xfc\xfb\xfa\xf9\xf8 PRIVMSG Info :here you go", "@k=x\ry;j=\xc3 PRIVMSG #c :x"}),
+		mkHelperCase("1", "sendraw", []string{"@+draft/reply=\xff\xfe\xfd\xfc\xfb\xfa\xf9\xf8 PRIVMSG Info :here you go", "@k=x\ry;j=\xc3 PRIVMSG #c :x"}),
+		mkHelperCase("2", "sendraw", []string{"@+draft/reply=\xff\xfe\xfd\xfc\xfb\xfa\xf9\xf8 PRIVMSG Info :here you go"}),
 	)
 	// join/list batching boundaries: total length around the limit
 	for _, v := range []string{"0", "2"} {
@@ -927,7 +935,8 @@ func genTags(r *rand.Rand) girc.Tags {
 		t := girc.Tags{}
 		for i := 0; i < 1+r.Intn(4); i++ {
 			k := Pick(r, "a", "b", "time", "account", "+draft/x", "example.com/k", "a b", "", "k\r\n", "k=", "k;", "\xc3")
-			v := Pick(r, "", "v", "x\\sy", "a b", "a;b", "v\r\nQUIT", "\xe2\x82", "2020-01-01T00:00:00.000Z", hostileStr(r))
+			v := Pick(r, "", "v", "x\\sy", "a b", "a;b", "v\r\nQUIT", "\xe2\x82", "2020-01-01T00:00:00.000Z", hostileStr(r),
+				"\r", "\n", "\r\n", strings.Repeat("\r\n", 1+r.Intn(6)), strings.Repeat("\xff", 1+r.Intn(9)), "\r\xff\n\xc3", "a\rb\nc\xffd", strings.Repeat("\n", r.Intn(12)))
 			t[k] = v
 		}
 		return t
@@ -968,7 +977,31 @@ func genWireEvent(r *rand.Rand) *girc.Event {
 			e.Params = append(e.Params, targetArg(r))
 		}
 	}
+	padForTagCut(e)
 	return e
+}
+
+// tagCutExcess: how many more bytes cleaning removes from the tag section than the rest
+// of the line has. A client that skips the tag section of the serialised line by its RAW
+// length (instead of not writing it) cuts that many bytes beyond the end of the line and
+// panics in its own goroutine, which kills the harness process and loses every row of
+// the suite; with excess <= 0 it "only" cuts into the command, which the oracle sees.
+func tagCutExcess(e *girc.Event) int {
+	if len(e.Tags) == 0 {
+		return 0
+	}
+	raw := len(e.Tags.Bytes())
+	cleaned := len(cleanGo(string(e.Tags.Bytes())))
+	bare := *e
+	bare.Tags = nil
+	return (raw - cleaned) - len(bare.Bytes())
+}
+
+// padForTagCut appends a parameter so that tagCutExcess(e) <= 0.
+func padForTagCut(e *girc.Event) {
+	if k := tagCutExcess(e); k > 0 {
+		e.Params = append(e.Params, strings.Repeat("p", k+1))
+	}
 }
 
 // Pick2 picks one of the given ints.
@@ -1121,6 +1154,14 @@ func fixedEventCases() []Case {
 		{Command: "JOIN", Source: &girc.Source{Name: "n\r\nQUIT", Ident: "u\n", Host: "h\r"}, Params: []string{"#c"}},
 		{Command: "TAGMSG", Tags: girc.Tags{"a": "b\r\nQUIT", "c\n": ""}, Params: []string{"#c"}},
 		{Command: "TAGMSG", Tags: girc.Tags{}, Params: []string{"#c"}},
+		// tags with values cleaning shortens, on clients with and without message-tags: the
+		// written line must still start with the event's command
+		{Command: "PRIVMSG", Tags: girc.Tags{"+draft/reply": "\r\n"}, Params: []string{"#chan", "hello again"}},
+		{Command: "PRIVMSG", Tags: girc.Tags{"+draft/reply": "\r\n\r\n\r\n\r\n"}, Params: []string{"QUIT", "smuggled quit message"}},
+		{Command: "PRIVMSG", Tags: girc.Tags{"+draft/reply": "\xff\xfe\xfd\xfc\xfb\xfa\xf9\xf8"}, Params: []string{"Info", "here you go"}},
+		{Command: "PRIVMSG", Tags: girc.Tags{"a": "\r", "b": "\n", "c": "x\xffy"}, Params: []string{"#chan", "mixed"}},
+		{Command: "NOTICE", Tags: girc.Tags{"k": "v\n"}, Source: &girc.Source{Name: "me"}, Params: []string{"nick", "with source"}},
+		{Command: "JOIN", Tags: girc.Tags{"k\r": ""}, Params: []string{"#c"}},
 		{Command: "PRIVMSG", Tags: girc.Tags{"k": strings.Repeat("v", 4090)}, Params: []string{"#c", "x"}},
 		{Command: "PRIVMSG", Tags: girc.Tags{"k": strings.Repeat("v", 4093)}, Params: []string{"#c", "x"}},
 		{Command: "PRIVMSG", Tags: girc.Tags{"a": "1", "k": strings.Repeat("v", 4089)}, Params: []string{"#c", "x"}},
@@ -1139,7 +1180,8 @@ func fixedEventCases() []Case {
 		{Command: "privmsg", Params: []string{"#c", strings.Repeat("w ", 300)}},
 	}
 	for _, e := range evs {
-		out = append(out, mkEventCase("0", e), mkEventCase("1", e))
+		padForTagCut(e)
+		out = append(out, mkEventCase("0", e), mkEventCase("1", e), mkEventCase("2", e))
 	}
 	// texts whose event length is exactly around the split limit
 	for _, v := range []string{"0", "2"} {
